@@ -72,4 +72,89 @@ theorem psound_inner_hash_join_swap : pstmt_inner_hash_join_swap := by
   have h2 : holds c ρ = holds c ρ' := by unfold holds; rw [hc ρ ρ' h]
   simp [h1, h2]
 
+/-- Rows of an inner join as nested loops. -/
+theorem inner_join_rows (on : BExpr) (L R : Rel) :
+    (join .inner on L R).rows =
+      L.rows.flatMap fun l => R.rows.flatMap fun r =>
+        if holds on (P.merge R.owned l r) then [P.merge R.owned l r] else [] := by
+  simp only [join, joinRows, matchesL]
+  apply flatMap_congr'
+  intro l _
+  rw [filter_map_eq_flatMap]
+
+theorem flatMap_ite_nil {α β} (c : Bool) (xs : List α) (f : α → List β) :
+    (if c then xs else []).flatMap f = if c then xs.flatMap f else [] := by
+  cases c <;> simp
+
+/-- Right rotation of two inner joins: the same rows in the same order. -/
+theorem inner_join_right_rotate_rows (c1 c2 : BExpr) (L M R : Rel)
+    (hd : ∀ x, (L.owned x || M.owned x) = true → R.owned x = false)
+    (hc2 : ReadsWithin c2 (fun x => L.owned x || M.owned x)) :
+    (join .inner c1 (join .inner c2 L M) R).rows =
+      (join .inner (bAnd c1 c2) L (join .inner bTrue M R)).rows := by
+  rw [inner_join_rows c1 (join .inner c2 L M) R, inner_join_rows c2 L M,
+      inner_join_rows (bAnd c1 c2) L (join .inner bTrue M R), inner_join_rows bTrue M R]
+  rw [List.flatMap_assoc]
+  apply flatMap_congr'
+  intro l _
+  rw [List.flatMap_assoc, List.flatMap_assoc]
+  apply flatMap_congr'
+  intro m _
+  -- left: (if c2 (l⊕m) then [l⊕m] else []).flatMap (fun lm => R.flatMap …)
+  -- right: (R.flatMap (fun r => if true then [m⊕r] else [])).flatMap (fun mr => if (c1∧c2) (l⊕mr) …)
+  rw [flatMap_ite_nil]
+  simp only [List.flatMap_cons, List.flatMap_nil, List.append_nil, holds_bTrue, if_true]
+  rw [List.flatMap_assoc]
+  have hown : (join .inner bTrue M R).owned = fun x => M.owned x || R.owned x := by
+    funext x; simp [join]
+  have henv : ∀ r : Env, P.merge (join .inner bTrue M R).owned l (P.merge R.owned m r)
+      = P.merge R.owned (P.merge M.owned l m) r := by
+    intro r; funext x
+    rw [hown]
+    by_cases hr : R.owned x = true
+    · simp [P.merge, hr]
+    · by_cases hm : M.owned x = true <;> simp [P.merge, hr, hm]
+  have hc2' : ∀ r : Env, holds c2 (P.merge R.owned (P.merge M.owned l m) r) = holds c2 (P.merge M.owned l m) := by
+    intro r
+    unfold holds
+    rw [hc2 (P.merge R.owned (P.merge M.owned l m) r) (P.merge M.owned l m)]
+    intro x hx
+    have := hd x hx
+    simp [P.merge, this]
+  by_cases h2 : holds c2 (P.merge M.owned l m) = true
+  · simp only [h2, if_true]
+    apply flatMap_congr'
+    intro r _
+    simp only [List.flatMap_cons, List.flatMap_nil, List.append_nil]
+    rw [henv r, holds_bAnd, hc2' r, h2, Bool.and_true]
+  · simp only [h2]
+    symm
+    apply List.flatMap_eq_nil_iff.mpr
+    intro r _
+    simp only [List.flatMap_cons, List.flatMap_nil, List.append_nil]
+    rw [henv r, holds_bAnd, hc2' r]
+    simp [h2]
+
+theorem psound_inner_join_right_rotate : pstmt_inner_join_right_rotate := by
+  intro c1 c2 L M R hd _ _ hc2
+  unfold RelPerm
+  apply List.Perm.of_eq
+  have hrows := inner_join_right_rotate_rows c1 c2 L M R (by simpa [join] using hd) hc2
+  have hcols : (join .inner c1 (join .inner c2 L M) R).cols
+      = (join .inner (bAnd c1 c2) L (join .inner bTrue M R)).cols := by
+    simp [join, List.append_assoc]
+  simp only [Rel.out, hrows, hcols]
+
+theorem psound_inner_join_right_rotate_1 : pstmt_inner_join_right_rotate_1 := by
+  intro es c pl cl L M R _ hd _ _ _ hcl
+  unfold RelPerm
+  apply List.Perm.of_eq
+  -- a projection changes the schema only: the inner `(proj ?projl …)` has the rows and the owned
+  -- columns of the join below it
+  have hrows : (join .inner c (proj pl (join .inner cl L M)) R).rows
+      = (join .inner (bAnd c cl) L (join .inner bTrue M R)).rows := by
+    have h := inner_join_right_rotate_rows c cl L M R (by simpa [join, proj] using hd) hcl
+    simpa [join, proj, joinRows] using h
+  exact congrArg (List.map fun ρ => es.map fun e => e ρ) hrows
+
 end RlModel.C01
